@@ -139,18 +139,15 @@ def efforts_from_pattern(rng, mode, cfg, pattern, nns, stop_at_failure=True):
             abort_at = len(outs)
             nwaits += 1
         rands = [rand8(rng) for _ in range(nwaits)]
-        if abort_at is not None and mode == 'asyncio':
+        how = rng.choice(['shutdown', 'shutdown', 'flag', 'preset'])
+        if abort_at is not None and mode == 'asyncio' and how != 'preset':
+            # a concurrent shutdown() needs a wait that blocks: a timeout > 0
             r = positive_rand(cfg, abort_at, rng)
             if r is None:
-                # a timeout <= 0 cannot be interrupted on asyncio (wait_for cancels the waiter at
-                # once): end the tail by a success instead
-                outs.append(['S', []])
-                abort_at = None
-                ended = 'connected'
+                how = 'preset'
             else:
                 rands[abort_at] = r
-        steps.append(['lose', 'transportError', outs, rands, abort_at,
-                      rng.choice(['shutdown', 'shutdown', 'flag'])])
+        steps.append(['lose', 'transportError', outs, rands, abort_at, how])
         if ended != 'connected':
             break
     return steps
@@ -205,14 +202,14 @@ def gen_scenarios(ctx):
                     ps = gen_params(rng, mode, simple=rng.random() < 0.6)
                     outs = [fail_kind(rng, nns_of(ps)) for _ in range(k)]
                     rands = [rand8(rng) for _ in range(k + 1)]
-                    if mode == 'asyncio':
+                    how = rng.choice(['shutdown', 'flag', 'preset'])
+                    if mode == 'asyncio' and how != 'preset':
                         r = positive_rand(cfg, k, rng)
                         if r is None:
-                            ctx.count('abort.skipped_nonpositive_timeout_asyncio')
-                            continue
-                        rands[k] = r
-                    steps = [['connect', 0],
-                             ['lose', 'transportError', outs, rands, k, rng.choice(['shutdown', 'flag'])]]
+                            how = 'preset'
+                        else:
+                            rands[k] = r
+                    steps = [['connect', 0], ['lose', 'transportError', outs, rands, k, how]]
                     out.append(scenario(mode, cfg, [ps], steps, 'abort'))
     # (5) causes of loss x reconnection on/off; afterwards the client connects again and loses the
     #     transport accidentally (an effort must start then, when enabled)
@@ -261,16 +258,31 @@ def gen_scenarios(ctx):
         else:
             k = rng.randint(0, 2)
             rands = [rand8(rng) for _ in range(k + 1)]
-            if mode == 'asyncio':
+            how = rng.choice(['shutdown', 'flag', 'preset'])
+            if mode == 'asyncio' and how != 'preset':
                 r = positive_rand(cfg, k, rng)
                 if r is None:
-                    continue
-                rands[k] = r
-            first = [['lose', 'transportError', [fail_kind(rng, 1) for _ in range(k)], rands, k,
-                      rng.choice(['shutdown', 'flag'])]]
+                    how = 'preset'
+                else:
+                    rands[k] = r
+            first = [['lose', 'transportError', [fail_kind(rng, 1) for _ in range(k)], rands, k, how]]
         steps = [['connect', 0]] + first + [['connect', 0]]
         steps += efforts_from_pattern(rng, mode, cfg, [rng.random() < 0.5, True], 1)[:1]
         out.append(scenario(mode, cfg, [ps], steps, 'after-failed-effort'))
+    # (8) the abort flag is set just before a wait whose timeout is <= 0 (the wait cannot block; the
+    #     flag must still be honoured: no further attempt)
+    for _ in range(ctx.scale(120, 1500)):
+        mode = rng.choice(modes)
+        cfg = mk_cfg(rng, n=0)
+        k = rng.randint(0, 3)
+        c = [r for r in range(8) if delay_of(cfg, k, F(r, 8))[1] <= 0]
+        if not c:
+            continue
+        ps = gen_params(rng, mode, simple=True)
+        outs = [fail_kind(rng, 1) for _ in range(k)] + ['T'] * 3
+        rands = [rand8(rng) for _ in range(k)] + ['%d/8' % rng.choice(c)] + [rand8(rng) for _ in range(3)]
+        steps = [['connect', 0], ['lose', 'transportError', outs, rands, k, 'preset']]
+        out.append(scenario(mode, cfg, [ps], steps, 'abort-flag-before-nonblocking-wait'))
     rng.shuffle(out)
     return out
 
@@ -293,6 +305,7 @@ def run_impl(sc):
         for st in sc['steps']:
             t0 = len(w.trace)
             e0 = len(w.eio_attempts)
+            p0 = len(w.problems)
             if st[0] == 'connect':
                 if w.client.connected:
                     obs['skipped'] = 'connect while connected'
@@ -301,7 +314,7 @@ def run_impl(sc):
                 cidx = w.canon_idx(w.conn_table[st[1]])
                 stored = (cidx, list(w.client.connection_namespaces or []), st[1])
                 obs['model_inputs'].append({'connect': {'conn': cidx, 'nss': [C.s2w(n) for n in stored[1]]}})
-                obs['steps'].append({'kind': 'connect', 'idx': st[1], 'result': res, 'stored': stored,
+                obs['steps'].append({'kind': 'connect', 'idx': st[1], 'result': res, 'stored': stored, 'p0': p0,
                                      'trace': w.trace[t0:], 'eio': w.eio_attempts[e0:],
                                      'connected_after': w.client.connected})
             else:
@@ -323,6 +336,7 @@ def run_impl(sc):
                     'rands': list(rands), 'abortAt': abort_at, 'fuel': len(rands) + 1})
                 obs['steps'].append({
                     'kind': 'lose', 'cause': cause, 'outs': outs, 'rands': rands, 'abort_at': abort_at,
+                    'abort_mode': abort_mode, 'p0': p0,
                     'started': started, 'finals': finals, 'stored': stored, 'trace': w.trace[t0:],
                     'eio': w.eio_attempts[e0:], 'connected_after': w.client.connected,
                     'task_after': w.client._reconnect_task is not None,
@@ -385,15 +399,27 @@ def real_value(spec, key, default):
 
 
 def oracle(sc, obs):
-    """-> (violations: [text], known: [text])"""
+    """-> (violations: [text], known: [(signature, text)])"""
     bad, known = [], []
-    cfg = sc['cfg']
-    N = cfg['attempts']
     failed_before = False          # an earlier effort of this client ended by give-up or abort
     for si, st in enumerate(obs['steps']):
         if st['kind'] != 'lose':
             continue
         where = 'step %d (%s)' % (si, st['cause'])
+        sbad, sknown, failed = oracle_step(sc, st, where, failed_before)
+        failed_before = failed_before or failed
+        bad += sbad
+        known += [(KNOWN_SIG, k) for k in sknown]
+    return bad, known
+
+
+def oracle_step(sc, st, where, failed_before):
+    """the statement on one loss -> (violations, known-finding-1 texts, this effort failed)"""
+    bad, known = [], []
+    cfg = sc['cfg']
+    N = cfg['attempts']
+    failed = False
+    if True:
         tr = st['trace']
         idx, nss, spec_i = st['stored']
         spec = sc['params'][spec_i]
@@ -415,7 +441,7 @@ def oracle(sc, obs):
         if not st['started']:
             if any(isinstance(e, dict) and ('wait' in e or 'attempt' in e) for e in tr):
                 bad.append('%s: waits/attempts without an effort' % where)
-            continue
+            return bad, known, failed
         # --- the effort
         seq = [e for e in tr if isinstance(e, dict) and ('wait' in e or 'attempt' in e)]
         waits = [e['wait'] for e in seq if 'wait' in e]
@@ -501,7 +527,7 @@ def oracle(sc, obs):
             if fin != nss:
                 bad.append('%s: effort ended without success, __disconnect_final ran for %r, namespaces %r'
                            % (where, fin, nss))
-            failed_before = True
+            failed = True
         # --- bookkeeping
         if not all(st['in_list_at_wait']):
             bad.append('%s: client not in reconnecting_clients during a back-off wait' % where)
@@ -509,12 +535,12 @@ def oracle(sc, obs):
             bad.append('%s: client still in reconnecting_clients after the effort' % where)
         if succeeded and st['task_after']:
             bad.append('%s: _reconnect_task still set after a successful effort' % where)
-    return bad, known
+    return bad, known, failed
 
 
-def region_cut(obs):
-    """number of leading steps outside the region of the known finding (up to and including the
-    first effort that ends by give-up or abort)"""
+def region_cut(sc, obs):
+    """number of leading steps whose trace is compared with the model: up to and including the
+    first effort that ends by give-up or abort (the rest is the region of the known finding)"""
     for i, st in enumerate(obs['steps']):
         if st['kind'] == 'lose' and st['started'] and not st['connected_after']:
             return i + 1
@@ -527,10 +553,10 @@ def check_scenario(ctx, sc, obs, ans, cut):
     """-> True when everything agrees"""
     bad, known = oracle(sc, obs)
     ok = True
-    for k in known:
-        ctx.known(KNOWN_SIG, k + ' — e.g. %s cfg=%s steps=%s' % (sc['mode'], json.dumps(sc['cfg']),
-                                                                 json.dumps(sc['steps'])))
-        ctx.count('known.' + KNOWN_SIG)
+    for sig, k in known:
+        ctx.known(sig, k + ' — e.g. %s cfg=%s steps=%s' % (sc['mode'], json.dumps(sc['cfg']),
+                                                          json.dumps(sc['steps'])))
+        ctx.count('known.' + sig)
     for b in bad:
         ok = False
         ctx.violation('oracle', b, {'scenario': sc, 'impl_trace': show(canon_impl(
@@ -540,7 +566,9 @@ def check_scenario(ctx, sc, obs, ans, cut):
         model = None
     else:
         model = ans['events']
-    if obs.get('problems') or model != impl:
+    p_end = obs['steps'][cut]['p0'] if cut < len(obs['steps']) else None
+    problems = obs.get('problems', [])[:p_end]
+    if problems or model != impl:
         ok = False
         first = None
         if model is not None:
@@ -551,9 +579,8 @@ def check_scenario(ctx, sc, obs, ans, cut):
                     break
         ctx.violation('correspondence',
                       'trace of the real %s differs from Sio.Reconnect.run (C10.* no longer tied): %s %s'
-                      % ('AsyncClient' if sc['mode'] == 'asyncio' else 'Client', first,
-                         obs.get('problems') or ''),
-                      {'scenario': sc, 'first_difference': first, 'problems': obs.get('problems'),
+                      % ('AsyncClient' if sc['mode'] == 'asyncio' else 'Client', first, problems or ''),
+                      {'scenario': sc, 'first_difference': first, 'problems': problems,
                        'impl_trace': show(impl), 'model_trace': show(model) if model is not None else None},
                       no_input=not bad)
     return ok
@@ -620,7 +647,7 @@ def run(ctx):
                 break
     finally:
         W.uninstall()
-    cuts = [region_cut(o) for o in results]
+    cuts = [region_cut(sc, o) for sc, o in zip(scs, results)]
     answers = C.batch('reconnect', [model_line(sc, o, cut) for sc, o, cut in zip(scs, results, cuts)])
     nontrivial = set()
     samples = []
@@ -679,8 +706,10 @@ def run(ctx):
         'time is observed through the wait primitives: the timeout handed to the abort event\'s wait '
         '(threads: scripted event; asyncio: real asyncio.Event + real wait_for on a virtual clock)',
         'random.random is the scripted sequence bound to the name `random` of the two client modules',
-        'on asyncio an abort is scripted only at waits whose timeout is > 0 (wait_for with a timeout <= 0 '
-        'cancels the waiter before it can see the flag; such a wait cannot be interrupted)',
+        'abort is realised three ways: the real shutdown() called while the effort is parked inside the wait '
+        '(on asyncio only at waits whose timeout is > 0: a wait_for with a timeout <= 0 does not block), the '
+        'abort flag set the way the SIGINT handler does, and the flag set just before the wait is entered '
+        '(any timeout, also <= 0)',
         'a loss between the server\'s CONNECT and the return of connect() is outside C10 (DESIGN §6 F8, C08)']
 
 
@@ -694,7 +723,7 @@ def replay(ctx, r):
         obs = run_impl(sc)
     finally:
         W.uninstall()
-    cut = region_cut(obs)
+    cut = region_cut(sc, obs)
     ans = C.batch('reconnect', [model_line(sc, obs, cut)])[0]
     print('scenario:', json.dumps(sc))
     print('implementation trace:')
